@@ -86,6 +86,13 @@ def wide_ops(ctx: Ctx, table: list) -> list[dict]:
             if iban is None:
                 continue
             add(iban, ENTRY)
+            if k == 0:
+                # the same texts held as a str subclass / as an unvalidated IBAN object (also a str)
+                bad = [iban[:-1] + ("0" if iban[-1] != "0" else "1"), iban[:-1], iban[:5] + "-" + iban[6:],
+                       "ZZ" + iban[2:], iban.lower()]
+                for t in [iban] + bad:
+                    for w in ("strsub", "object"):
+                        ops.append({"op": "iban.new", "t": cps(t), "vb": False, "wrap": w})
             base = cps(iban)
             # every position x every alphabet character (substitution)
             for p in range(len(base)):
